@@ -254,6 +254,22 @@ def discharge(pc: list, goal, timeout_ms: int = 20000, want_model=True, watch=No
     for c in pc:
         s.add(c)
     s.add(z3.Not(goal))
+    if hints and "cvc5-first" in hints:
+        # string-containment obligations (node stack as a string): z3 gets one second, then cvc5, which decides
+        # these in milliseconds, before z3 is given the full budget
+        s.set("timeout", 1000)
+        try:
+            r0 = s.check()
+        except z3.Z3Exception:
+            r0 = z3.unknown
+        if r0 == z3.unsat:
+            return Verdict("proved", "z3-5.1", time.time() - t0)
+        if r0 == z3.unknown:
+            v2 = _cli_fallback(s, min(timeout_ms, 10000), only="cvc5")
+            if v2 is not None:
+                v2.secs = time.time() - t0
+                return v2
+        s.set("timeout", timeout_ms)
     try:
         r = s.check()
     except z3.Z3Exception as ex:  # pragma: no cover
@@ -430,7 +446,7 @@ def _ackermann_refute(pc, goal, timeout_ms):
         return None
 
 
-def _cli_fallback(s: z3.Solver, timeout_ms: int):
+def _cli_fallback(s: z3.Solver, timeout_ms: int, only: str = ""):
     """re-issue as SMT-LIB to cvc5 --strings-exp and /usr/bin/z3 4.8.12; only a
     decisive 'unsat' is taken from them (their models are not validated here)."""
     try:
@@ -444,6 +460,8 @@ def _cli_fallback(s: z3.Solver, timeout_ms: int):
     try:
         for name, cmd in (("cvc5-1.0.3", ["/usr/bin/cvc5", "--strings-exp", f"--tlimit={secs*1000}", path]),
                           ("z3-4.8.12", ["/usr/bin/z3", f"-T:{secs}", path])):
+            if only and not name.startswith(only):
+                continue
             try:
                 out = subprocess.run(cmd, capture_output=True, text=True, timeout=secs + 5).stdout
             except Exception:
